@@ -14,8 +14,9 @@ ASSUMPTIONS = [
 ]
 SUBS = [
     dict(name="block", quick=dict(cases=40000, shards=2), thorough=dict(cases=400000, shards=2)),
-    dict(name="ctr", quick=dict(cases=1500, shards=10), thorough=dict(cases=15000, shards=10)),
+    dict(name="ctr", quick=dict(cases=1500, shards=9), thorough=dict(cases=15000, shards=9)),
     dict(name="carrygrid", quick=dict(cases=3000, shards=3), thorough=dict(cases=30000, shards=3)),
+    dict(name="carrysweep", quick=dict(cases=6, shards=1), thorough=dict(cases=12, shards=4)),
     dict(name="huge", quick=dict(cases=40, shards=1), thorough=dict(cases=8, shards=3)),
 ]
 LIB = {"crypto_aes.c", "crypto_aes_aesni.c", "crypto_aesctr.c", "crypto_aesctr_aesni.c", "cpusupport_x86_aesni.c",
@@ -39,7 +40,7 @@ MANIFEST = dict(
          "and boundary+1..15 calls so the carry block is produced by the bulk path, by the tail generator, or consumed by a later head; "
          "in-place and separate buffers; crypto_aesctr_buf) against the partition-independent reference keystream "
          "AES_ref(k, nonce_be64||index_be64), plus decrypt-restores-input per segment; a grid of (start mod 16, len1, len2) around the "
-         "carries; streams of 2^16..2^20 blocks in quick and 2^24 blocks (256 MiB) in thorough. Exploration is the right level: keys, "
+         "carries, sampled (carrygrid) and enumerated completely per case (carrysweep: 50 start deltas x 49 lengths); streams of 2^16..2^20 blocks in quick and 2^24 blocks (256 MiB) in thorough. Exploration is the right level: keys, "
          "nonces and histories are unbounded, the oracle is exact, and the classes named by the property (head/whole/tail x carry, "
          "re-initialisation with and without a new key) are populated deliberately and reported in the class histogram.",
     note="Trusted: clang 14 + ASan/UBSan, rapidcheck, the FIPS-197 reference in props/C02/core.cpp (validated at start-up on FIPS-197 "
